@@ -170,6 +170,9 @@ func cmdCheck(args []string) int {
 		if *only != "" && !strings.Contains(r.Name, *only) {
 			continue
 		}
+		if *tier == "quick" && r.Quick["quick_skip"] == 1 {
+			continue
+		}
 		jobs = append(jobs, expandJobs(r, *tier)...)
 	}
 	results := runJobs(jobs, *workers, *repo, filepath.Join(*verif, "harness"), knownPath, *tier)
